@@ -238,6 +238,10 @@ func (w *world) mix(num uint32) tx.Transactions {
 	out = append(out, t1)
 	// a tx that references the very block that includes it (lower edge of its window), and a long-lived one
 	out = append(out, w.mkTx(txOpt{ref: num, exp: 30}), w.mkTx(txOpt{ref: num - 1, exp: 1 << 30}))
+	if num > 102 {
+		// a tx whose block ref lies more than 100 blocks back: duplicates of it are looked up through the tx index
+		out = append(out, w.mkTx(txOpt{ref: num - 102, exp: 1 << 30}))
+	}
 	if w.prof.light {
 		huge := new(big.Int).Mul(sim.BigBalance, big.NewInt(1000))
 		a := w.addr(9)
